@@ -456,7 +456,21 @@ def jobs_for(seed: int, tier: str) -> list[dict]:
     J('probe-qutrit-sq', 'circuit',
       [{'t': 'qutrit-sq'}], {'n': 2, 'shape': 'a2a', 'gates': 'qutrit',
                              'radix': 3}, 1)
-    return jobs
+    # keep the batch inside compile()'s own input domain (its argument guards, transcribed in
+    # translate/workflows.py and compared with the real ones by malformed_stream)
+    from translate.workflows import outside_compile_domain
+    kept = []
+    for j in jobs:
+        m = build_model(j['model'])
+        widths = [2 if s['t'] == 'qutrit-sq' else s['width'] for s in j['inputs']]
+        if any(outside_compile_domain(w, m, j['ms']) for w in widths):
+            continue
+        if j['kind'] == 'circuit' and j['ms'] < 3 and any(
+                s.get('three') for s in j['inputs']):
+            for s in j['inputs']:
+                s['three'] = False
+        kept.append(j)
+    return kept
 
 
 def build_input(spec: dict, rng: random.Random):
